@@ -114,6 +114,9 @@ func init() {
 	})
 }
 
+// c04Recv is this worker's receive buffer (see c04Eval).
+var c04Recv = make([]byte, 1<<16)
+
 func payloadChain(p *rec.Rec) string {
 	if p == nil {
 		return "none"
@@ -177,6 +180,13 @@ func c04Eval(c *fw.Ctx, data any) {
 	var msg util.Message
 	var perr error
 	in := append([]byte(nil), wire...)
+	if c.Index%2 == 1 {
+		// every other frame is received into the same buffer as the one before it (as a connection's read buffer or
+		// a pooled one is): what the parser returns must be this frame's contents, whatever it remembers of the last
+		in = c04Recv[:len(wire)]
+		copy(in, wire)
+		c.Count("frames_parsed_from_a_reused_receive_buffer", 1)
+	}
 	vd := fw.Guard(len(in), func() { msg, perr = of.Parse(in) })
 	switch vd.Class {
 	case "panic":
